@@ -346,40 +346,72 @@ func (e *Engine) discharge(res *HarnessResult, cfg RunConfig) {
 		live = append(live, o)
 	}
 	if len(live) > 0 {
-		// one query for the disjunction first
-		var disj []*Term
-		for _, o := range live {
-			disj = append(disj, tb.And(o.Assume, o.Cond))
+		// obligations are closed in chunks: one query for the disjunction of a chunk; only a chunk that does not
+		// close is split into individual queries. Chunks run in parallel.
+		solveOne := func(o *Obligation) {
+			if o.Assume.IsTrue() && o.Cond.IsTrue() {
+				// concrete execution (engine replay with fixed values): the obligation fails outright
+				o.Result, o.Model, o.Solver = "sat", Model{}, "none"
+				return
+			}
+			r, m, k := pool.Solve([]*Term{o.Assume, o.Cond}, vars)
+			o.Result, o.Model, o.Solver = r, m, k
 		}
-		all := tb.Or(disj...)
-		r := "sat"
-		if !all.IsFalse() {
-			if len(live) > 1 {
-				r, _, _ = pool.Solve([]*Term{all}, nil)
-			}
-		} else {
-			r = "unsat"
+		size := 24
+		if len(live) <= 48 {
+			size = len(live)
 		}
-		if r == "unsat" {
-			for _, o := range live {
-				o.Result = "unsat"
+		type chunkT struct {
+			obls []*Obligation
+			disj *Term
+		}
+		var chunks []*chunkT
+		for lo := 0; lo < len(live); lo += size {
+			hi := lo + size
+			if hi > len(live) {
+				hi = len(live)
 			}
-		} else {
-			var ojobs []job
-			for _, o := range live {
-				ojobs = append(ojobs, job{o: o})
+			c := &chunkT{obls: live[lo:hi]}
+			var dj []*Term
+			for _, o := range c.obls {
+				dj = append(dj, tb.And(o.Assume, o.Cond))
 			}
-			// obligation terms must exist before parallel printing: they do (Assume, Cond)
-			run(ojobs, func(j job) {
-				if j.o.Assume.IsTrue() && j.o.Cond.IsTrue() {
-					// concrete execution (engine replay with fixed values): the obligation fails outright
-					j.o.Result, j.o.Model, j.o.Solver = "sat", Model{}, "none"
-					return
+			c.disj = tb.Or(dj...)
+			c.disj.HasFPOp()
+			chunks = append(chunks, c)
+		}
+		ch := make(chan *chunkT)
+		var wg2 sync.WaitGroup
+		for w := 0; w < workers; w++ {
+			wg2.Add(1)
+			go func() {
+				defer wg2.Done()
+				for c := range ch {
+					if c.disj.IsFalse() {
+						for _, o := range c.obls {
+							o.Result = "unsat"
+						}
+						continue
+					}
+					if len(c.obls) > 1 {
+						if r, _, _ := pool.Solve([]*Term{c.disj}, nil); r == "unsat" {
+							for _, o := range c.obls {
+								o.Result = "unsat"
+							}
+							continue
+						}
+					}
+					for _, o := range c.obls {
+						solveOne(o)
+					}
 				}
-				r, m, k := pool.Solve([]*Term{j.o.Assume, j.o.Cond}, vars)
-				j.o.Result, j.o.Model, j.o.Solver = r, m, k
-			})
+			}()
 		}
+		for _, c := range chunks {
+			ch <- c
+		}
+		close(ch)
+		wg2.Wait()
 	}
 	for _, o := range live {
 		switch o.Result {
